@@ -40,3 +40,11 @@ def evaluate(ctx, name, records):
         return [i - 1 for i in v[-1][0]]
     finally:
         shutil.rmtree(wd, ignore_errors=True)
+
+
+def ratio(id_, value, limit):
+    """value <= limit, judged as value/limit <= 1 in micro-units (for tolerances far below 1e-6)"""
+    r = float(value) / float(limit) if limit else float('inf')
+    if not (r == r):
+        r = 1e3
+    return {'kind': 'le', 'id': id_, 'a': micro(min(r, 1e3)), 'b': micro(1.0)}
